@@ -1,0 +1,26 @@
+//go:build verif
+
+package verifhooks
+
+import (
+	"context"
+
+	"github.com/sirupsen/logrus"
+
+	"github.com/atlassian/gostatsd/internal/awslambda/extension"
+)
+
+// RunnableServer is what the Lambda extension manager runs next to itself.
+type RunnableServer interface {
+	Run(ctx context.Context) error
+}
+
+// NewExtensionManager builds the Lambda extension manager around an arbitrary server, so that a harness can decide
+// how that server's Run ends. fc and telemetryAddr enable per-invocation flushing when fc is not nil.
+func NewExtensionManager(runtimeAPI, executableName string, logger logrus.FieldLogger, server RunnableServer, fc Coordinator, telemetryAddr string) RunnableServer {
+	var opts []extension.ManagerOpt
+	if fc != nil {
+		opts = append(opts, extension.WithManualFlushEnabled(fc, telemetryAddr))
+	}
+	return extension.NewManager(runtimeAPI, executableName, logger, server, opts...)
+}
